@@ -737,6 +737,14 @@ def _donor(src, edit_donor, pick):
 
 
 COMPOUND_EDITS = [
+    # a keyword turned into `**` (arg = None) and back, with positional / starred arguments on either side of it (a `**v` can not stand in front of `*b`: the whole call is re-put)
+    ('f(x, a=v, *b)  # c\ny = 1  # keep\n', 'keywords[0].arg = None with a starred argument behind', lambda t: setattr(t.body[0].value.keywords[0], 'arg', None)),
+    ('f(a=v, *b)\n', 'keywords[0].arg = None, starred argument behind, nothing in front', lambda t: setattr(t.body[0].value.keywords[0], 'arg', None)),
+    ('f(x, *c, a=v, *b, k=w)\n', 'keywords[0].arg = None between starred arguments', lambda t: setattr(t.body[0].value.keywords[0], 'arg', None)),
+    ('f(x, a=v)\n', 'keywords[0].arg = None, last argument', lambda t: setattr(t.body[0].value.keywords[0], 'arg', None)),
+    ('class K(x, a=v, *b): pass\n', 'class keywords[0].arg = None with a starred base behind', lambda t: setattr(t.body[0].keywords[0], 'arg', None)),
+    ('f(x, **v)\n', 'keywords[0].arg = name', lambda t: setattr(t.body[0].value.keywords[0], 'arg', 'k')),
+    ('f(x, a=v, *b)\n', 'keywords[0].arg = other name', lambda t: setattr(t.body[0].value.keywords[0], 'arg', 'kk')),
     ('a = 0\n', 'extend with the rest of another tree whose first statement was popped', lambda t: t.body.extend(_donor('x = 1  # x\ny = 2  # y\nz = 3  # z\n', lambda d: d.body.pop(0), lambda d: d.body))),
     ('a = 0\n', 'extend with the reversed statements of another tree', lambda t: t.body.extend(_donor('x = 1\ny = 2\nz = 3\n', lambda d: d.body.reverse(), lambda d: d.body))),
     ('v = [a]\n', 'extend with elements of a list of another tree whose first was popped', lambda t: t.body[0].value.elts.extend(_donor('[x, y, z]\n', lambda d: d.body[0].value.elts.pop(0), lambda d: d.body[0].value.elts))),
